@@ -60,7 +60,115 @@ func stripResponse(target string, fragmentMode bool) string {
 	return base + "?" + strings.Join(keep, "&")
 }
 
+// redirectTarget is where the recorded response sends the user agent: the Location header or the action of the form_post page.
+func redirectTarget(rep *TReport, rec *httptest.ResponseRecorder, what string) string {
+	target := rec.Header().Get("Location")
+	if target == "" {
+		if m := formAction.FindStringSubmatch(rec.Body.String()); m != nil {
+			target = html.UnescapeString(m[1])
+		}
+	}
+	if strings.Contains(target, "ZgotmplZ") { // html/template refused the scheme: the page posts nowhere
+		rep.Notes = append(rep.Notes, "form_post page with sanitised action for "+what)
+		target = ""
+	}
+	return target
+}
+
+// runC11Par: the request is pushed (with the first registered URI or without one) and the front-channel request that
+// redeems the request_uri carries a redirect_uri of its own. Whatever the endpoint answers, a redirect goes to the URI
+// fixed at the pushed-authorization endpoint.
+func runC11Par(rep *TReport, raw json.RawMessage) {
+	var r struct {
+		Reg          []tURI
+		Pushed       string
+		FrontOmitted bool `json:"front_omitted"`
+		Front        tURI
+		RType        string
+		TargetKnown  bool `json:"target_known"`
+		Target       tURI
+		CodeOK       bool `json:"code_ok"`
+	}
+	if err := json.Unmarshal(raw, &r); err != nil {
+		panic(err)
+	}
+	w := NewWorld(DefaultCfg())
+	w.Rec.Keep = false
+	regs := []string{}
+	for _, u := range r.Reg {
+		regs = append(regs, u.String())
+	}
+	w.Mem.Clients["A"] = &fosite.DefaultResponseModeClient{
+		DefaultClient: &fosite.DefaultClient{ID: "A", Secret: []byte("plain:" + ClientSecrets["A"]), RedirectURIs: regs,
+			ResponseTypes: []string{"code", "token"}, GrantTypes: allGrantTypes, Scopes: []string{"a"}},
+		ResponseModes: []fosite.ResponseModeType{fosite.ResponseModeQuery, fosite.ResponseModeFragment, fosite.ResponseModeFormPost},
+	}
+	ctx := context.Background()
+	pf := url.Values{"response_type": {r.RType}, "scope": {"a"}, "state": {GoodState}}
+	if r.Pushed == "first" {
+		pf.Set("redirect_uri", r.Target.String())
+	}
+	preq := postReq("/par")
+	preq.SetBasicAuth("A", ClientSecrets["A"])
+	finishPost(preq, pf)
+	par, perr := w.Provider.NewPushedAuthorizeRequest(ctx, preq)
+	var presp fosite.PushedAuthorizeResponder
+	if perr == nil {
+		presp, perr = w.Provider.NewPushedAuthorizeResponse(ctx, par, NewSess(Subject))
+	}
+	rep.Checks++
+	if perr != nil {
+		if r.TargetKnown && r.CodeOK {
+			rep.Notes = append(rep.Notes, "push refused for a registered redirect URI: "+r.Target.String()+": "+errName(perr))
+		}
+		return
+	}
+	q := url.Values{"client_id": {"A"}, "request_uri": {presp.GetRequestURI()}}
+	if !r.FrontOmitted {
+		q.Set("redirect_uri", r.Front.String())
+	}
+	req := httptest.NewRequest("GET", "https://issuer.example/auth?"+q.Encode(), nil)
+	rec := httptest.NewRecorder()
+	ar, err := w.Provider.NewAuthorizeRequest(ctx, req)
+	if err != nil {
+		w.Provider.WriteAuthorizeError(ctx, rec, ar, err)
+	} else {
+		ar.GrantScope("a")
+		resp, err := w.Provider.NewAuthorizeResponse(ctx, ar, NewSess(Subject))
+		if err != nil {
+			w.Provider.WriteAuthorizeError(ctx, rec, ar, err)
+		} else {
+			w.Provider.WriteAuthorizeResponse(ctx, rec, ar, resp)
+		}
+	}
+	target := redirectTarget(rep, rec, r.Front.String())
+	rep.Checks++
+	if target == "" {
+		return
+	}
+	want := r.Target.String()
+	base := stripResponse(target, r.RType == "token")
+	if alt := stripResponse(target, r.RType != "token"); base != want && alt == want { // an error raised before the response mode is known
+		base = alt
+	}
+	ok := base == want
+	if !r.TargetKnown { // nothing was fixed at the pushed-authorization endpoint: at least a registered URI
+		ok = false
+		for _, g := range regs {
+			ok = ok || g == base
+		}
+	}
+	if !ok {
+		rep.Mismatches = append(rep.Mismatches, TMismatch{Row: raw, Field: "par_redirect_to_other_than_pushed_uri", Exp: want, Obs: target})
+	}
+}
+
 func runC11(rep *TReport, raw json.RawMessage) {
+	var kind struct{ Par bool }
+	if json.Unmarshal(raw, &kind) == nil && kind.Par {
+		runC11Par(rep, raw)
+		return
+	}
 	var r struct {
 		Reg                    []tURI
 		Omitted                bool
